@@ -74,7 +74,9 @@ void ProxySocket::onUpstreamConnected()
     QByteArray rawPath = mDownstreamSocket->rawPath();
     int queryIndex = rawPath.indexOf('?');
     if (queryIndex != -1) {
-        target += rawPath.mid(queryIndex);
+        // (the request parser lets a lone CR or LF through, which must not
+        // reach the request line; existing escapes and delimiters are kept)
+        target += rawPath.mid(queryIndex).toPercentEncoding("?/:@!$&'()*+,;=%#[]");
     }
     mUpstreamSocket.write(
         methodToString(mDownstreamSocket->method()).toUtf8() + " " + target + " HTTP/1.1\r\n"
